@@ -580,7 +580,7 @@ func (g *c06Gen) httpHead() (b []byte, expect string, class string) {
 		nm, exp, cls = []byte(g.plainName()), "", "plain"
 		exp = string(nm)
 	}
-	hostKey := []string{"Host", "host", "HOST", "hOsT", " Host", "Host "}[r.Intn(6)]
+	hostKey := []string{"Host", "host", "HOST", "hOsT", "Host", "Host "}[r.Intn(6)]
 	sep := []string{" ", "", "  ", "\t"}[r.Intn(4)]
 	hs = append(hs, hdr{"User-Agent", " curl/8.0"}, hdr{"Accept", " */*"})
 	if r.Chance(0.3) {
@@ -602,8 +602,18 @@ func (g *c06Gen) httpHead() (b []byte, expect string, class string) {
 	if withHost && r.Chance(0.15) { // second Host header: the first one wins
 		hs = append(hs, hdr{"Host", " second.example"})
 	}
-	for _, h := range hs {
+	if r.Chance(0.2) { // a large header in front (cookies, tokens): pushes Host far into the head
+		hs = append([]hdr{{"Cookie", " " + strings.Repeat("k=v; ", r.Range(50, 450))}}, hs...)
+	}
+	fold := -1
+	if r.Chance(0.15) { // an obs-fold continuation line that looks like a Host header
+		fold = r.Intn(len(hs))
+	}
+	for i, h := range hs {
 		sb.WriteString(h.k + ":" + h.v + "\r\n")
+		if i == fold {
+			sb.WriteString([]string{" ", "\t"}[r.Intn(2)] + "Host: folded.example\r\n")
+		}
 	}
 	if r.Chance(0.1) {
 		sb.WriteString("garbage line without colon\r\n")
@@ -634,6 +644,7 @@ type c06QuicCase struct {
 	oracle    []*c06Sealed
 	class     []string
 	hasClose  bool // a CONNECTION_CLOSE frame was put into some packet
+	compactAt int  // > 0: CompactPacketState after that many datagrams, then the whole flight again
 }
 
 func (g *c06Gen) quicFrames(hs []byte) ([]c06Frame, string) {
